@@ -654,7 +654,7 @@ Lemma spliced_self st v a' b' new :
   let v' := shift_view (s + a') (s + b') (zlen new) v in
   view_ok st' v' /\ v_store v' = p /\
   store st' p = firstn (Z.to_nat s) P ++ zsplice L a' b' new ++ skipn (Z.to_nat e) P /\
-  V_render st' v' = zsplice L a' b' new.
+  V_render st' v' = zsplice L a' b' new /\ v_start v' = s.
 Proof.
   intros Hne Hok Hab Hb. cbn zeta. pose proof Hok as (Hst & Hse & He).
   set (p := v_store v) in *. set (s := v_start v) in *. set (e := V_stop st v) in *.
@@ -676,11 +676,12 @@ Proof.
     replace (Z.to_nat (s + b')) with (length X + Z.to_nat b')%nat by lia.
     apply splice_inside; lia. }
   split; [now rewrite HL|].
-  rewrite render_valid by exact Hok'. cbn [shift_view v_store]. fold p. rewrite Hstore.
-  rewrite HL.
   (* the bounds of the shifted view *)
   assert (Hs' : v_start (shift_view (s + a') (s + b') (zlen new) v) = s).
   { cbn [shift_view v_start]. fold s. destruct (Z.gtb_spec s (s + a')); [lia|reflexivity]. }
+  split; [|exact Hs'].
+  rewrite render_valid by exact Hok'. cbn [shift_view v_store]. fold p. rewrite Hstore.
+  rewrite HL.
   assert (He' : V_stop (spliced st p (s + a') (s + b') new) (shift_view (s + a') (s + b') (zlen new) v)
                 = e + (zlen new - (b' - a'))).
   { rewrite (V_stop_shift_same st p (s + a') (s + b') new v Hst eq_refl) by (fold P; unfold zlen; lia).
@@ -702,7 +703,7 @@ Theorem proxy_op_is_list_op_lemma st k v o :
   | Ok (L', r) =>
       exists st', sl_step eqb sortf st (View k) o = Ok (st', r) /\
         (exists v', nth_error (views st') k = Some v' /\ v_store v' = v_store v /\
-                    V_read st' v' = Ok L') /\
+                    v_start v' = v_start v /\ V_read st' v' = Ok L') /\
         store st' (v_store v)
           = firstn (Z.to_nat (v_start v)) (store st (v_store v)) ++ L'
             ++ skipn (Z.to_nat (V_stop st v)) (store st (v_store v))
@@ -717,13 +718,13 @@ Proof.
         | context [match ?x with _ => _ end] => destruct x end; discriminate. }
   pose proof (list_splice_bounds _ _ _ _ _ _ E) as Hb. rewrite zlen_render in Hb by assumption.
   destruct Hinv as [Hne Hall].
-  destruct (spliced_self st v a b new Hne Hok ltac:(lia) ltac:(lia)) as (Hok' & Hp' & Hstore & Hrender).
+  destruct (spliced_self st v a b new Hne Hok ltac:(lia) ltac:(lia)) as (Hok' & Hp' & Hstore & Hrender & Hstart).
   destruct (mutates o) eqn:Hm.
   - eexists. split; [reflexivity|]. split.
     + eexists. split.
       * unfold spliced at 1, set_store. cbn [views].
         rewrite (nth_error_shift_children _ _ _ _ _ _ _ Hk). now rewrite Nat.eqb_refl.
-      * split; [reflexivity|]. rewrite read_valid by exact Hok'. now rewrite Hrender.
+      * split; [reflexivity|]. split; [exact Hstart|]. rewrite read_valid by exact Hok'. now rewrite Hrender.
     + exact Hstore.
   - (* non-mutating: the splice is the empty one *)
     assert (Hnil : a = 0 /\ b = 0 /\ new = []).
@@ -733,7 +734,7 @@ Proof.
     destruct Hnil as (-> & -> & ->).
     assert (Hid : zsplice (V_render st v) 0 0 [] = V_render st v) by (apply zsplice_nil_id; lia).
     rewrite Hid in *. exists st. split; [reflexivity|]. split.
-    + exists v. split; [exact Hk|]. split; [reflexivity|]. now apply read_valid.
+    + exists v. split; [exact Hk|]. split; [reflexivity|]. split; [reflexivity|]. now apply read_valid.
     + rewrite render_valid by assumption. destruct Hok as (Hst & Hse & He).
       unfold zslice. unfold zlen in He.
       destruct (splice_decomp (store st (v_store v)) (Z.to_nat (v_start v)) (Z.to_nat (V_stop st v)) []
